@@ -3,6 +3,7 @@
 
 use serde_json::{json, Map, Value};
 use std::{
+    cell::{Cell, RefCell},
     collections::{BTreeMap, BTreeSet, HashSet},
     fs,
     panic::{self, AssertUnwindSafe},
@@ -241,7 +242,126 @@ fn arm_budget() {
     }
 }
 
+// ------------------------------------------------------------------------------------------
+// Hostile history: builds are independent of each other (C17), so any build may be preceded on the
+// same thread by any other build without changing its result. Every HISTORY_PERIOD-th in-process
+// build of a thread (and its first) is therefore preceded by one small program of another kind -
+// other devices, failing builds, macros, #defines, segments, high addresses. On a tree where the
+// properties hold this is unobservable; state that survives a build (a thread-local, a cache keyed
+// too coarsely, a table not unwound on the error path) shows up in whichever oracle runs next.
+
+pub const HISTORY_PERIOD: u64 = 16;
+const HISTORY_PROGRAMS_PLAIN: &[&str] = &[
+    ".device ATtiny10\nldi r16, 1\nlds r16, 0x41\nsts 0x42, r17\n",
+    ".device ATmega2560\n.org 0x1ff00\nfar: jmp far\ncall far\neijmp\nelpm r0, Z+\n",
+    ".device ATtiny11\nnop\npush r0\n",
+    ".macro m\nldi @0, @1\n.endm\n.macro select_part\n.device ATmega8\n.endm\nselect_part\nm r16, 1\nm r17, 2\n",
+    ".equ x = 5\n.set y = x + 1\n.def tmp = r16\n.def temp = r17\nldi tmp, y\nldi temp, low(x)\n.undef tmp\n.set y = y + 1\n.dw y\n",
+    "this is not assembler ?!\n",
+    ".dseg\nvar: .byte 3\nbuf: .byte 5\n.eseg\n.db 1, 2, 3\nee: .dw var, buf\n",
+    ".include \"no/such/file.inc\"\nnop\n",
+    "#define FLAG\n.ifdef FLAG\n.define OTHER\n.message \"flag\"\n.else\n.error \"no flag\"\n.endif\n.ifndef OTHER\n.dw 1\n.endif\n",
+    ".if 1\nnop\n",
+    ".macro unfinished\nnop\n",
+    "start: rjmp start\nloop: brne loop\n.db \"text\", 0\n.dw undefined_symbol\n",
+    ".device AT90S1200\nldi r16, 300\n",
+    ".device ATmega103\n.cseg\n.org 0x100\nlbl: .db 1\n.dseg\n.org 0x200\nd: .byte 1\n.cseg\nldi r30, low(d)\nlpm\n",
+];
+
+/// `.equ` doubling ladder: evaluating `a<n>` takes about 2^n steps
+pub fn equ_ladder(rungs: usize, last_line: &str) -> String {
+    let mut s = String::from(".equ a0 = 1\n");
+    for i in 1..=rungs {
+        s.push_str(&format!(".equ a{} = a{} + a{}\n", i, i - 1, i - 1));
+    }
+    s.push_str(last_line);
+    s.push('\n');
+    s
+}
+
+/// the plain programs plus builds that end at one of the assembler's own resource limits
+pub fn history_programs() -> &'static Vec<String> {
+    static P: std::sync::OnceLock<Vec<String>> = std::sync::OnceLock::new();
+    P.get_or_init(|| {
+        let mut v: Vec<String> = HISTORY_PROGRAMS_PLAIN.iter().map(|s| s.to_string()).collect();
+        v.push(equ_ladder(21, "ldi r16, low(a21)")); // evaluation step limit
+        v.push(equ_ladder(18, "ldi r16, low(a18 + nowhere)")); // long evaluation that then fails
+        v.push(".macro again\nnop\nagain\n.endm\nagain\n".to_string()); // macro nesting limit
+        v.push(format!("ldi r16, 1{}\n", "+1".repeat(700))); // line complexity limit
+        v.push(".device ATtiny13\n.org 0x1ff\nnop\nnop\n".to_string()); // capacity
+        v
+    })
+}
+
+thread_local! {
+    static HIST_CALLS: Cell<u64> = const { Cell::new(0) };
+    static HIST_SLOT: Cell<usize> = const { Cell::new(usize::MAX) };
+    static HIST_SEEN: RefCell<Vec<usize>> = const { RefCell::new(Vec::new()) };
+    static HOOK_MASK: Cell<u32> = const { Cell::new(0) };
+}
+static HIST_THREADS: AtomicUsize = AtomicUsize::new(0);
+pub static HISTORY_BUILDS: AtomicU64 = AtomicU64::new(0);
+pub static HISTORY_OFF: AtomicBool = AtomicBool::new(false);
+
+/// the hook mask is mirrored here so that history builds can run with the hooks switched off
+pub fn hook_enable(mask: u32) {
+    HOOK_MASK.with(|m| m.set(mask));
+    avra_lib::verif::enable(mask);
+}
+
+/// history programs this thread has built so far, in first-use order (recorded with every violation)
+pub fn thread_history() -> Vec<usize> {
+    HIST_SEEN.with(|h| h.borrow().clone())
+}
+
+pub fn run_history_program(idx: usize) {
+    let progs = history_programs();
+    let src = progs[idx % progs.len()].as_str();
+    let mask = HOOK_MASK.with(|m| m.get());
+    avra_lib::verif::enable(0);
+    arm_budget();
+    let _ = guarded(|| avra_lib::builder::build_str(src).map(|_| ()).map_err(|e| e.to_string()));
+    avra_lib::verif::enable(mask);
+    HIST_SEEN.with(|h| {
+        let mut h = h.borrow_mut();
+        if !h.contains(&idx) {
+            h.push(idx);
+        }
+    });
+    HISTORY_BUILDS.fetch_add(1, Ordering::Relaxed);
+}
+
+fn hostile_history() {
+    // (the Miri legs run a fixed small workload of their own, at interpreter speed)
+    if cfg!(miri) || HISTORY_OFF.load(Ordering::Relaxed) || BUDGET_MANAGED_BY_CALLER.load(Ordering::Relaxed) {
+        return;
+    }
+    let n = HIST_CALLS.with(|c| {
+        let n = c.get();
+        c.set(n + 1);
+        n
+    });
+    if n % HISTORY_PERIOD != 0 {
+        return;
+    }
+    let slot = HIST_SLOT.with(|s| {
+        if s.get() == usize::MAX {
+            s.set(HIST_THREADS.fetch_add(1, Ordering::Relaxed));
+        }
+        s.get()
+    });
+    let k = slot + (n / HISTORY_PERIOD) as usize;
+    let len = history_programs().len();
+    let mut idx = k % len;
+    // the two long evaluations cost about a million steps each: every fourth time their turn comes
+    if (idx == HISTORY_PROGRAMS_PLAIN.len() || idx == HISTORY_PROGRAMS_PLAIN.len() + 1) && (k / len) % 4 != 0 {
+        idx = (idx + 2) % len;
+    }
+    run_history_program(idx);
+}
+
 pub fn build_str(src: &str) -> Outcome {
+    hostile_history();
     arm_budget();
     match guarded(|| avra_lib::builder::build_str(src).map_err(|e| e.to_string())) {
         Ok(Ok(b)) => Outcome::Ok(b),
@@ -252,6 +372,7 @@ pub fn build_str(src: &str) -> Outcome {
 
 pub fn build_file(path: &Path, dirs: &[PathBuf]) -> Outcome {
     let paths: BTreeSet<PathBuf> = dirs.iter().cloned().collect();
+    hostile_history();
     arm_budget();
     match guarded(|| {
         avra_lib::builder::build_file(path.to_path_buf(), paths).map_err(|e| e.to_string())
@@ -314,6 +435,8 @@ pub struct Violation {
     pub sig: String,
     pub what: String,
     pub replay: Value,
+    /// history programs built earlier on the reporting thread (see `hostile_history`)
+    pub history: Vec<usize>,
 }
 
 #[derive(Clone, Debug)]
@@ -492,6 +615,7 @@ impl Ctx {
                 sig,
                 what: what.into(),
                 replay,
+                history: thread_history(),
             });
         }
     }
@@ -545,7 +669,7 @@ pub fn finish(ctx: &Ctx, rule: &str, assumptions: &[&str]) -> i32 {
         let path = replay_dir.join(fname);
         let body = json!({
             "property": ctx.prop, "sig": v.sig, "what": v.what, "seed": ctx.seed, "tier": ctx.tier.name(),
-            "case": v.replay,
+            "case": v.replay, "thread_history": v.history,
         });
         let _ = fs::write(&path, serde_json::to_string_pretty(&body).unwrap());
         println!(
@@ -591,6 +715,11 @@ pub fn finish(ctx: &Ctx, rule: &str, assumptions: &[&str]) -> i32 {
     coverage.insert("observed_sets".into(), Value::Object(set_json));
     coverage.insert("inconclusive".into(), json!(inconclusive));
     coverage.insert("notes".into(), json!(ctx.notes.lock().unwrap().clone()));
+    coverage.insert(
+        "hostile_history_builds".into(),
+        json!({"builds": HISTORY_BUILDS.load(Ordering::Relaxed), "period": HISTORY_PERIOD, "programs": history_programs().len(),
+               "meaning": "small builds of another kind (other devices, failing builds, macros, #defines, segments) run on the same thread before every period-th in-process build, hooks off; they must be unobservable"}),
+    );
     coverage.insert(
         "known_findings_reobserved".into(),
         json!(known_seen.iter().collect::<Vec<_>>()),
